@@ -6,8 +6,10 @@ import (
 	"encoding/json"
 	"errors"
 	"fmt"
+	"os"
 	"regexp"
 	"sort"
+	"strconv"
 	"strings"
 	"sync"
 	"time"
@@ -117,9 +119,48 @@ func gatherIncs(reg *prometheus.Registry) []string {
 
 // runSshd processes one (pid, message) with the real processor.
 // via: "direct" = ProcessSshdLogEntry, "syslog" = SyslogIngester.Process on the framed bytes.
+// sharedMetrics: one metrics provider (and registry) kept across `left` more lines, so that the
+// counters are read before and after each line of a sequence, as in one daemon run
+type sharedMetrics struct {
+	reg  *prometheus.Registry
+	mp   *metrics.PrometheusMetricsProvider
+	left int
+}
+
+var shared sharedMetrics
+var sshdBatch = 1
+
+// incDelta returns the increments between two Gather snapshots
+func incDelta(before, after []string) []string {
+	cnt := map[string]int{}
+	for _, x := range before {
+		cnt[x]--
+	}
+	for _, x := range after {
+		cnt[x]++
+	}
+	var out []string
+	for k, n := range cnt {
+		for i := 0; i < n; i++ {
+			out = append(out, k)
+		}
+		for i := 0; i > n; i-- {
+			out = append(out, "!decrement:"+k)
+		}
+	}
+	sort.Strings(out)
+	return out
+}
+
 func runSshd(pid, msg, framed string, writeOK bool, handoff string, via string) string {
-	reg := prometheus.NewRegistry()
-	mp := metrics.NewPrometheusMetricsProviderForRegisterer(reg)
+	if shared.left <= 0 {
+		shared.reg = prometheus.NewRegistry()
+		shared.mp = metrics.NewPrometheusMetricsProviderForRegisterer(shared.reg)
+		shared.left = sshdBatch
+	}
+	shared.left--
+	reg, mp := shared.reg, shared.mp
+	incsBefore := gatherIncs(reg)
 	log := &effectLog{failAll: !writeOK}
 	ew := auditevent.NewAuditEventWriter(log)
 	logins := make(chan common.RemoteUserLogin)
@@ -183,15 +224,20 @@ func runSshd(pid, msg, framed string, writeOK bool, handoff string, via string) 
 			log.flags = append(log.flags, "!auditid")
 		}
 	}
-	parts := append(gatherIncs(reg), log.effs...)
+	parts := append(incDelta(incsBefore, gatherIncs(reg)), log.effs...)
 	parts = append(parts, res)
 	return strings.Join(parts, ";") + strings.Join(log.flags, "")
 }
 
 func init() {
 	sshd.SetLogger(zap.NewNop().Sugar())
-	// sshd <id> <pidhex> <linehex> <ok|fail> <ready|cancel>
+	// sshd [batch=<n>]: <id> <pidhex> <linehex> <ok|fail> <ready|cancel>
 	modes["sshd"] = func(in *bufio.Scanner, out *bufio.Writer) {
+		for _, a := range os.Args[2:] {
+			if strings.HasPrefix(a, "batch=") {
+				sshdBatch, _ = strconv.Atoi(a[6:])
+			}
+		}
 		for in.Scan() {
 			f := strings.Fields(in.Text())
 			if len(f) < 5 {
@@ -221,6 +267,162 @@ func init() {
 				continue
 			}
 			fmt.Fprintf(out, "%s %s\n", f[0], runSshd("", "", unhex(f[1]), f[2] == "ok", f[3], "syslog"))
+		}
+	}
+}
+
+// fifoLog records the events written while a whole stream is processed; a forwarded login is
+// recorded right after the event it points to (the receiver runs concurrently with the processing
+// of the following records, so arrival order in the log would be a matter of scheduling).
+type fifoLog struct {
+	mu      sync.Mutex
+	effs    []string
+	evs     []*auditevent.AuditEvent // evs[i] is the event of effs[i] (nil for logins)
+	failAll bool
+	flags   []string
+}
+
+func (l *fifoLog) Encode(v any) error {
+	e, ok := v.(*auditevent.AuditEvent)
+	l.mu.Lock()
+	defer l.mu.Unlock()
+	if !ok {
+		l.flags = append(l.flags, "!notevent")
+		return nil
+	}
+	if l.failAll {
+		l.effs, l.evs = append(l.effs, "W:fail:"+renderEvent(e)), append(l.evs, e)
+		return errInjected
+	}
+	l.effs, l.evs = append(l.effs, "W:ok:"+renderEvent(e)), append(l.evs, e)
+	return nil
+}
+
+func (l *fifoLog) forwarded(lg common.RemoteUserLogin) {
+	l.mu.Lock()
+	defer l.mu.Unlock()
+	s := fmt.Sprintf("S:%d:%s", lg.PID, hx(lg.CredUserID))
+	for i, e := range l.evs {
+		if e != nil && e == lg.Source {
+			l.effs = append(l.effs[:i+1], append([]string{s}, l.effs[i+1:]...)...)
+			l.evs = append(l.evs[:i+1], append([]*auditevent.AuditEvent{nil}, l.evs[i+1:]...)...)
+			return
+		}
+	}
+	l.effs, l.evs = append(l.effs, s+"!source"), append(l.evs, nil)
+}
+
+// runSyslogFifo delivers the chunks through a real FIFO to SyslogIngester.Ingest (C07 at FIFO
+// level): all effects of all records in order, then how Ingest ended.
+func runSyslogFifo(chunks []string, pauses []int, writeOK bool) string {
+	path := fifoPath()
+	defer os.Remove(path)
+	reg := prometheus.NewRegistry()
+	mp := metrics.NewPrometheusMetricsProviderForRegisterer(reg)
+	log := &fifoLog{failAll: !writeOK}
+	ew := auditevent.NewAuditEventWriter(log)
+	logins := make(chan common.RemoteUserLogin)
+	ctx, cancel := context.WithCancel(context.Background())
+	defer cancel()
+	var wg sync.WaitGroup
+	stopRecv := make(chan struct{})
+	wg.Add(1)
+	go func() {
+		defer wg.Done()
+		for {
+			select {
+			case l := <-logins:
+				log.forwarded(l)
+			case <-stopRecv:
+				return
+			}
+		}
+	}()
+	proc := sshd.NewSshdProcessor(ctx, logins, nodeName, machineID, ew, mp)
+	npi := namedpipe.NewNamedPipeIngester(zap.NewNop().Sugar(), health.NewHealth())
+	sli := syslog.NewSyslogIngester(path, proc, npi)
+	done := make(chan error, 1)
+	go func() {
+		defer func() {
+			if r := recover(); r != nil {
+				done <- errors.New("panic")
+			}
+		}()
+		done <- sli.Ingest(ctx)
+	}()
+	w, err := os.OpenFile(path, os.O_WRONLY, 0)
+	if err != nil {
+		return "R:openfail"
+	}
+	go func() {
+		for i, c := range chunks {
+			if i < len(pauses) && pauses[i] > 0 {
+				time.Sleep(time.Duration(pauses[i]) * time.Microsecond)
+			}
+			if len(c) == 0 {
+				continue
+			}
+			if _, err := w.Write([]byte(c)); err != nil {
+				break
+			}
+		}
+		w.Close()
+	}()
+	res := "R:hang"
+	select {
+	case err := <-done:
+		switch {
+		case err == nil:
+			res = "R:nil"
+		case errors.Is(err, errInjected):
+			res = "R:err"
+		case err.Error() == "EOF":
+			res = "R:eof"
+		case err.Error() == "panic":
+			res = "R:panic"
+		default:
+			res = "R:other"
+		}
+	case <-time.After(20 * time.Second):
+		cancel()
+	}
+	close(stopRecv)
+	wg.Wait()
+	log.mu.Lock()
+	defer log.mu.Unlock()
+	parts := append(gatherIncs(reg), log.effs...)
+	parts = append(parts, res)
+	return strings.Join(parts, ";") + strings.Join(log.flags, "")
+}
+
+func init() {
+	// c07fifo <id> <ok|fail> <chunkhex>,<chunkhex>,… [pauses=<us>,…]
+	modes["c07fifo"] = func(in *bufio.Scanner, out *bufio.Writer) {
+		defer func() {
+			if pipeDir != "" {
+				os.RemoveAll(pipeDir)
+			}
+		}()
+		for in.Scan() {
+			f := strings.Fields(in.Text())
+			if len(f) < 3 {
+				continue
+			}
+			var chunks []string
+			for _, c := range strings.Split(f[2], ",") {
+				chunks = append(chunks, unhex(c))
+			}
+			var pauses []int
+			for _, x := range f[3:] {
+				if strings.HasPrefix(x, "pauses=") {
+					for _, p := range strings.Split(x[7:], ",") {
+						n, _ := strconv.Atoi(p)
+						pauses = append(pauses, n)
+					}
+				}
+			}
+			fmt.Fprintf(out, "%s %s\n", f[0], runSyslogFifo(chunks, pauses, f[1] == "ok"))
+			out.Flush()
 		}
 	}
 }
